@@ -530,6 +530,81 @@ fn astronomic_populations(r: &mut Report) {
     }
 }
 
+/// Child makers assembled from the library's own parts, as its examples do (`Select . apply_twice . then_map(GenomeExtractor) .
+/// then(Recombine) . then(Mutate) . wrap::<GenomeScorer>`), stepped serially and under pools.  None of these pipelines can fail
+/// on a non-empty population whose individuals carry the configured number of results, so every step must be `Ok`, keep the
+/// size, and deliver children that are scored by the scorer.  Several generations with *different* configurations (numbers
+/// of lexicase cases, tournament sizes, repetition counts 0 / 1 / 2) are stepped one after the other on the same threads:
+/// a step depends on its own generation only.  Model-free.
+fn library_pipeline_scenarios(r: &mut Report, seed: u64) {
+    use ec_core::distributions::collection::ConvertToCollectionGenerator;
+    use ec_core::individual::ec::WithScorer;
+    use ec_core::operator::constant::Constant;
+    use ec_core::operator::genome_extractor::GenomeExtractor;
+    use ec_core::operator::mutator::Mutate;
+    use ec_core::operator::recombinator::Recombine;
+    use ec_core::operator::selector::{best::Best, lexicase::Lexicase, tournament::Tournament, Select};
+    use ec_core::test_results::{Score, TestResults};
+    use ec_linear::genome::bitstring::Bitstring;
+    use ec_linear::mutator::with_one_over_length::WithOneOverLength;
+    use ec_linear::recombinator::two_point_xo::TwoPointXo;
+    use rand::distr::{Distribution, StandardUniform};
+    type BI = EcIndividual<Bitstring, TestResults<Score<i64>>>;
+    fn score_k(k: usize, b: &Bitstring) -> TestResults<Score<i64>> {
+        (0..k).map(|c| b.bits.iter().skip(c).step_by(k.max(1)).filter(|x| **x).count() as i64).collect()
+    }
+    let mut bad: Vec<String> = vec![];
+    let mut steps = 0u64;
+    let mut check = |what: &str, k: usize, bits: usize, n: usize, res: Result<(), String>, pop: &Vec<BI>, bad: &mut Vec<String>| {
+        match res {
+            Err(e) => bad.push(format!("{what}: a step whose child maker cannot fail on this population returned the error `{e}`")),
+            Ok(()) => {
+                if pop.len() != n { bad.push(format!("{what}: the population has {} individuals after the step, it had {n}", pop.len())); }
+                for c in pop {
+                    if c.genome.bits.len() != bits { bad.push(format!("{what}: a child genome has {} bits, the parents had {bits}", c.genome.bits.len())); break; }
+                    if c.test_results != score_k(k, &c.genome) { bad.push(format!("{what}: a child does not carry the scorer's results for its genome")); break; }
+                }
+            }
+        }
+    };
+    // (a) lexicase with 4, then 3, 2, 1, then 4 cases again; tournaments of 5, 2, 1, 3 - one after the other on this thread and in the pools
+    let configs: [(usize, usize, usize); 9] = [(12, 4, 0), (12, 3, 0), (10, 2, 0), (9, 1, 0), (12, 4, 0), (8, 2, 5), (8, 2, 2), (8, 2, 1), (8, 2, 3)];
+    for round in 0..2 {
+        for (ci, &(bits, k, tsize)) in configs.iter().enumerate() {
+            let mut rng = SplitMix::derive(seed ^ 0x11B, (round * 16 + ci) as u64);
+            let n = 9usize;
+            let scorer = FnScorer(move |b: &Bitstring| score_k(k, b));
+            let population: Vec<BI> = StandardUniform.to_collection_generator(bits).with_scorer(scorer).into_collection_generator(n).sample(&mut rng);
+            macro_rules! drive { ($maker:expr, $label:expr) => {{
+                let mut generation = Generation::new($maker, population.clone());
+                for (si, mode) in [None, Some(1usize), None, Some(4), Some(0)].iter().enumerate() {
+                    let res = std::panic::catch_unwind(std::panic::AssertUnwindSafe(|| match mode {
+                        None => generation.serial_next().map_err(|e| e.to_string()),
+                        Some(pi) => pools()[*pi].1.install(|| generation.par_next().map_err(|e| e.to_string())),
+                    })).unwrap_or_else(|_| Err("PANIC".to_string()));
+                    steps += 1;
+                    check(&format!("{} (bits {bits}, cases {k}, population {n}), step {si} ({})", $label, match mode { None => "serial".to_string(), Some(pi) => format!("pool of {} threads", pools()[*pi].0) }), k, bits, n, res, generation.population(), &mut bad);
+                }
+            }}; }
+            if tsize == 0 {
+                drive!(Select::new(Lexicase::new(k)).apply_twice().then_map(GenomeExtractor).then(Recombine::new(TwoPointXo)).then(Mutate::new(WithOneOverLength)).wrap::<GenomeScorer<_, _>>(scorer), "Lexicase . twice . extract . TwoPointXo . WithOneOverLength . score");
+            } else {
+                drive!(Select::new(Tournament::new(std::num::NonZeroUsize::new(tsize).unwrap())).apply_twice().then_map(GenomeExtractor).then(Recombine::new(TwoPointXo)).then(Mutate::new(WithOneOverLength)).wrap::<GenomeScorer<_, _>>(scorer), format!("Tournament({tsize}) . twice . extract . TwoPointXo . WithOneOverLength . score"));
+            }
+            // (b) a selection repeated 0 / 1 / 2 times whose outcome is then ignored: zero applications cannot fail (or panic)
+            let fixed = Bitstring { bits: vec![true; bits] };
+            drive!(Select::new(Best).apply_n_times::<0>().then(Constant::new(fixed.clone())).wrap::<GenomeScorer<_, _>>(scorer), "Best . 0 times . constant genome . score");
+            drive!(Select::new(Best).apply_n_times::<1>().then(Constant::new(fixed.clone())).wrap::<GenomeScorer<_, _>>(scorer), "Best . once . constant genome . score");
+            drive!(Select::new(Lexicase::new(k)).apply_n_times::<2>().then(Constant::new(fixed.clone())).wrap::<GenomeScorer<_, _>>(scorer), "Lexicase . twice . constant genome . score");
+        }
+    }
+    r.case("library child makers stepped in sequence", true);
+    r.hit_n("steps with library child makers (oracle only)", steps);
+    for what in bad.into_iter().take(6) {
+        r.violate(json!({"case": "generations with child makers made of library selectors / recombinators / mutators / scorers, stepped one after the other (serial, pools of 1, 2 and 8 threads)", "what": what}));
+    }
+}
+
 fn clip(s: &str) -> String { if s.len() > 400 { format!("{}…({} chars)", &s[..400], s.len()) } else { s.to_string() } }
 
 pub fn run(cfg: &Cfg) -> Report {
@@ -547,7 +622,7 @@ pub fn run(cfg: &Cfg) -> Report {
         let c = gen_case(&mut g, thorough, i, n_exh, &exh);
         run_case(d, r, &c, &mut g, i);
     });
-    if mutant().is_empty() { set_population_scenarios(&mut rep, seed); astronomic_populations(&mut rep); }
+    if mutant().is_empty() { set_population_scenarios(&mut rep, seed); astronomic_populations(&mut rep); library_pipeline_scenarios(&mut rep, seed); }
     if !mutant().is_empty() { rep.notes.push(format!("SELF-TEST: real Generation replaced by mutant `{}`", mutant())); }
     rep.exhaustive = true;
     rep.notes.push(format!("exhaustive scope: population sizes 0..=16 x every failing call position 0..n (and none) x (serial, rayon pools of 1,2,3,4,8,16 threads) x {reps} repeats = {n_exh} cases; seeded random: {n_rand} cases of 1-3 consecutive steps"));
